@@ -48,6 +48,10 @@ type Case struct {
 	// Reps, when > 0, is the number of in-process repetitions of the identity order (cases
 	// whose nondeterminism would show only in a fraction of the emissions).
 	Reps int `json:"reps,omitempty"`
+	// MustReject / MustAccept: what the case is built to be (a hand-built case that turns out
+	// otherwise under the identity order AND every other order is a harness problem, not a verdict).
+	MustReject bool `json:"mustReject,omitempty"`
+	MustAccept bool `json:"mustAccept,omitempty"`
 	// NErr is the number of independent planted errors.
 	NErr int `json:"nerr"`
 	// Collide: some message has placeholders with colliding base names.
@@ -74,6 +78,10 @@ var soyFuncs2 = []string{
 var soyDirectives = []string{
 	"{$s |truncate:5}", "{$s |escapeUri}", "{$s |insertWordBreaks:3}", "{$s |changeNewlineToBr}",
 	"{$s |escapeJsString}", "{$s |escapeHtml}", "{$s |json}",
+	// chains with a marker directive (|id, |noAutoescape: no JS function of their own) in
+	// non-final position, and with the directives that cancel autoescaping
+	"{$s |id |truncate:5}", "{$s |noAutoescape |escapeUri}", "{$s |noAutoescape |insertWordBreaks:3 |truncate:30}",
+	"{$s |changeNewlineToBr |truncate:20}", "{$s |id |escapeJsString |noAutoescape |truncate:9}", "{$s |insertWordBreaks:4 |escapeUri}",
 }
 
 type body struct {
